@@ -1,6 +1,6 @@
 (* C13 - packs are append-only and filled in order.  Statements only. *)
 From Coq Require Import List ZArith NArith.
-From DOS Require Import Base Store StoreProofs StoreLemmas Mono MonoStep PickPack Programs PackProofs AddPackProofs ImportProofs C13Proofs.
+From DOS Require Import Base Store StoreProofs StoreLemmas Mono MonoStep PickPack Layout LayoutCall Programs PackProofs AddPackProofs ImportProofs C13Proofs.
 Import ListNotations.
 
 Section C13.
@@ -61,6 +61,21 @@ Theorem C13_pack_choice_keeps_layout : forall sizes target n cached fuel,
      (r = (n - 1)%Z /\ exists sz, sizes r = Some sz /\ (sz < target)%Z) \/
      ((r < n - 1)%Z /\ False)).
 Proof. exact pick_keeps_layout. Qed.
+(* layout half for a WHOLE write call (pack_all_loose / direct-to-pack), at the level of pack sizes: the pack chosen by
+   _get_pack_id_to_write_to (pick) from a cached id below which every pack is full, then the fill order of the call (Layout.segs:
+   objects go to the open pack while it is below the target, later packs are fresh): afterwards the pack ids are still consecutive from
+   0, every pack but the last has reached the target, and every pack before the last one written is full - the hypothesis of the next
+   call.  No full pack is written again: Layout.segs_layout (an object is only ever added to a pack that is below the target). *)
+Theorem C13_call_keeps_layout : forall (A : Type) (len : A -> nat) sizes (target n cached : Z) fuelp r (tgt size0 fuels : nat) (objs : list A),
+  layout sizes target n -> (0 <= cached <= n)%Z -> full_below sizes target cached ->
+  (Z.to_nat (n - cached) <= fuelp)%nat -> pick fuelp sizes target cached = Some r ->
+  target = Z.of_nat tgt -> (0 < tgt)%nat ->
+  Z.of_nat size0 = match sizes r with Some s => s | None => 0%Z end -> (size0 < tgt)%nat ->
+  (length objs < fuels)%nat -> objs <> [] ->
+  let tot := map (fun s => Z.of_nat (Layout.total len s)) (segs len fuels tgt size0 objs) in
+  layout (after sizes r tot) target (r + Z.of_nat (length tot)) /\
+  full_below (after sizes r tot) target (r + Z.of_nat (length tot) - 1).
+Proof. intros A len. exact (call_keeps_layout len). Qed.
 Print Assumptions C13_pack_choice_keeps_layout.
 Print Assumptions C13_step_keeps_referenced_bytes.
 Print Assumptions C13_trace_checker_sound.
@@ -69,3 +84,4 @@ Print Assumptions C13_add_to_pack_every_step.
 Print Assumptions C13_import_every_step.
 Print Assumptions C13_import_steps_pass_the_side_conditions.
 Print Assumptions C13_pack_every_step.
+Print Assumptions C13_call_keeps_layout.
